@@ -52,6 +52,17 @@ CLAIMED['C10'] = dict(
     technique='contract-based deductive verification: Python ast -> VC generator (ghost history, loop invariants, alias write-through) -> z3',
     design='3 C10')
 
+CLAIMED['C13'] = dict(
+    text='Unbounded proof that the real source of SignedFunction._map_args raises a FailedFunctionCall subclass iff one of the five '
+         'CPython binding rules is violated (too many positionals; multiple values; unexpected keyword incl. positional-only named '
+         'without **kwargs; missing positional; missing keyword-only) and on success gives every parameter exactly the argument CPython '
+         'gives it (positional / keyword / default / *args tuple / **kwargs dict). Through-the-VM behaviour is sampled by a bounded sweep against real calls.',
+    note='Trusted: engine/, z3, A-SPEC (rules transliterated from the language reference; validated against real calls), cfg.Variable '
+         'operations as opaque constructors, preconditions: no *args/**kwargs at the call site, well-formed signature, visible named args. '
+         'InterpreterFunction overrides of argcount/get_nondefault_params, overload choice, PyTDFunction binding: unverified surround.',
+    technique='contract-based deductive verification: Python ast -> VC generator (loop invariants, anchored lemmas) -> z3',
+    design='3 C13')
+
 NOT_APPLICABLE = {
     'C01': 'whole abstract interpreter vs CPython execution: no function-level contract expresses over-approximation of execution (DESIGN 4)',
     'C02': 'decided by matcher.py (2000 lines) on live VM values; the inhabitant oracle quantifies over programs, not one call (DESIGN 4)',
